@@ -2,9 +2,8 @@ package absint
 
 import (
 	"fmt"
+	"reflect"
 	"go/types"
-	"sort"
-	"strings"
 
 	"golang.org/x/tools/go/ssa"
 )
@@ -15,14 +14,119 @@ type Heap struct {
 	facts  []Lin
 	neqs   []Lin
 	regver map[*Region]int
+	known  map[*Region][]knownElem // elements written with a known value at a constant offset (copy-on-write slices)
+}
+
+type knownElem struct {
+	off int64
+	val Lin
+}
+
+// writeRegion records a write to region r covering [off, off+n) (nil = unknown extent): the
+// region's unknown contents get a new version; known elements outside the written range survive.
+func (in *Interp) writeRegion(h *Heap, r *Region, off *Lin, n *Lin, tag int) {
+	in.instance++
+	h.regver[r] = tag + in.instance
+	old := h.known[r]
+	if traceForks {
+		os, ns := "nil", "nil"
+		if off != nil {
+			os = off.String()
+		}
+		if n != nil {
+			ns = n.String()
+		}
+		fmt.Printf("[write] %s off=%s n=%s tag=%d known=%d stack=%v\n", r.Name, os, ns, tag, len(old), len(in.stack))
+	}
+	if len(old) == 0 {
+		return
+	}
+	var lo, hi int64
+	exact := false
+	if off != nil && n != nil {
+		if o, ok := off.ConstVal(); ok {
+			if c, ok := n.ConstVal(); ok {
+				lo, hi, exact = o, o+c, true
+			}
+		}
+	}
+	if !exact {
+		// symbolic start/extent: a known element survives when the write provably starts after it
+		// or ends before it
+		if off != nil {
+			o, _ := off.Bounds()
+			var nk []knownElem
+			for _, k := range old {
+				switch {
+				case o > NegInf && k.off < o:
+					nk = append(nk, k)
+				case h.entails(off.AddC(-(k.off + 1))):
+					nk = append(nk, k)
+				case n != nil && h.entails(Const(k.off).Sub(*off).Sub(*n)):
+					nk = append(nk, k)
+				}
+			}
+			if len(nk) == 0 {
+				delete(h.known, r)
+			} else {
+				h.known[r] = nk
+			}
+			return
+		}
+		delete(h.known, r)
+		return
+	}
+	var nk []knownElem
+	for _, k := range old {
+		if k.off < lo || k.off >= hi {
+			nk = append(nk, k)
+		}
+	}
+	if len(nk) == 0 {
+		delete(h.known, r)
+	} else {
+		h.known[r] = nk
+	}
+}
+
+func (h *Heap) setKnown(r *Region, off int64, val Lin) {
+	old := h.known[r]
+	nk := make([]knownElem, 0, len(old)+1)
+	for _, k := range old {
+		if k.off != off {
+			nk = append(nk, k)
+		}
+	}
+	nk = append(nk, knownElem{off, val})
+	h.known[r] = nk
+}
+
+func (h *Heap) getKnown(r *Region, off Lin) (Lin, bool) {
+	ks := h.known[r]
+	if len(ks) == 0 {
+		return Lin{}, false
+	}
+	o, ok := off.ConstVal()
+	if !ok {
+		return Lin{}, false
+	}
+	for _, k := range ks {
+		if k.off == o {
+			return k.val, true
+		}
+	}
+	return Lin{}, false
 }
 
 func newHeap() *Heap {
-	return &Heap{mem: map[*Cell]Value{}, regver: map[*Region]int{}}
+	return &Heap{mem: map[*Cell]Value{}, regver: map[*Region]int{}, known: map[*Region][]knownElem{}}
 }
 
 func (h *Heap) clone() *Heap {
-	n := &Heap{mem: make(map[*Cell]Value, len(h.mem)), regver: make(map[*Region]int, len(h.regver))}
+	n := &Heap{mem: make(map[*Cell]Value, len(h.mem)), regver: make(map[*Region]int, len(h.regver)), known: make(map[*Region][]knownElem, len(h.known))}
+	for k, v := range h.known {
+		n.known[k] = v
+	}
 	for k, v := range h.mem {
 		n.mem[k] = v
 	}
@@ -106,68 +210,172 @@ func (s *State) note(msg string) {
 	}
 }
 
-// fingerprint renders the state for de-duplication at block entries.
+// fingerprint hashes the state (128 bits, order-independent over maps) for de-duplication.
 func (s *State) fingerprint(keep func(ssa.Value) bool) string {
-	var sb strings.Builder
-	type kv struct {
-		k string
-		v string
+	var h1, h2 uint64
+	add := func(a, b uint64) {
+		h1 += a
+		h2 += b
 	}
-	var es []kv
 	for k, v := range s.env {
 		if keep != nil && !keep(k) {
 			continue
 		}
-		es = append(es, kv{fmt.Sprintf("%p", k), valStr(v)})
+		a, b := hashValue(v)
+		kp := ptrHash(k)
+		add(mix64(a^kp), mix64(b+kp*31))
 	}
-	sort.Slice(es, func(i, j int) bool { return es[i].k < es[j].k })
-	for _, e := range es {
-		sb.WriteString(e.k)
-		sb.WriteByte('=')
-		sb.WriteString(e.v)
-		sb.WriteByte(';')
+	for _, f := range s.h.facts {
+		a, b := f.Hash()
+		add(mix64(a^0x11), mix64(b^0x12))
 	}
-	sb.WriteString("|F:")
-	fs := make([]string, len(s.h.facts))
-	for i, f := range s.h.facts {
-		fs[i] = f.String()
+	for _, f := range s.h.neqs {
+		a, b := f.Hash()
+		add(mix64(a^0x21), mix64(b^0x22))
 	}
-	sort.Strings(fs)
-	sb.WriteString(strings.Join(fs, "&"))
-	sb.WriteString("|N:")
-	ns := make([]string, len(s.h.neqs))
-	for i, f := range s.h.neqs {
-		ns[i] = f.String()
-	}
-	sort.Strings(ns)
-	sb.WriteString(strings.Join(ns, "&"))
-	sb.WriteString("|M:")
-	var ms []kv
 	for c, v := range s.h.mem {
-		ms = append(ms, kv{fmt.Sprint(c.ID), valStr(v)})
+		a, b := hashValue(v)
+		add(mix64(a^uint64(c.ID)*0x9e37), mix64(b+uint64(c.ID)*0x85eb))
 	}
-	sort.Slice(ms, func(i, j int) bool { return ms[i].k < ms[j].k })
-	for _, e := range ms {
-		sb.WriteString(e.k + "=" + e.v + ";")
-	}
-	sb.WriteString("|B:")
-	var bs []string
 	for k, v := range s.bools {
-		bs = append(bs, fmt.Sprintf("%s=%v", k, v.val))
+		a, b := hashString(k)
+		if v.val {
+			a, b = a+1, b+7
+		}
+		add(mix64(a), mix64(b))
 	}
-	sort.Strings(bs)
-	sb.WriteString(strings.Join(bs, ","))
-	sb.WriteString("|V:")
-	var vs []string
 	for r, v := range s.h.regver {
 		if v != 0 {
-			vs = append(vs, fmt.Sprintf("%d=%d", r.ID, v))
+			add(mix64(uint64(r.ID)<<32|uint64(uint32(v))), mix64(uint64(r.ID)*0x9e3779b1+uint64(v)))
 		}
 	}
-	sort.Strings(vs)
-	sb.WriteString(strings.Join(vs, ","))
-	fmt.Fprintf(&sb, "|D:%d", len(s.defers))
-	return sb.String()
+	for r, ks := range s.h.known {
+		for _, k := range ks {
+			a, b := k.val.Hash()
+			add(mix64(a+uint64(r.ID)*0x3b+uint64(k.off)*0x1d), mix64(b^(uint64(r.ID)*0x6f+uint64(k.off))))
+		}
+	}
+	add(uint64(len(s.defers))*0x51ed, uint64(len(s.defers))*0x7f4a)
+	return fmt.Sprintf("%016x%016x", h1, h2)
+}
+
+func ptrHash(v ssa.Value) uint64 {
+	return mix64(uint64(reflectPtr(v)))
+}
+
+func hashString(s string) (uint64, uint64) {
+	var a, b uint64 = 14695981039346656037, 0x9e3779b97f4a7c15
+	for i := 0; i < len(s); i++ {
+		a = (a ^ uint64(s[i])) * 1099511628211
+		b = (b + uint64(s[i])) * 0xff51afd7ed558ccd
+	}
+	return a, b
+}
+
+func hashValue(v Value) (uint64, uint64) {
+	if v == nil {
+		return 1, 2
+	}
+	switch t := v.(type) {
+	case IntV:
+		a, b := t.L.Hash()
+		return a ^ 0x101, b ^ 0x102
+	case BoolV:
+		switch t.Kind {
+		case BConst:
+			if t.Const {
+				return 0x201, 0x202
+			}
+			return 0x203, 0x204
+		case BGe, BEq, BNe:
+			a, b := t.L.Hash()
+			return a ^ uint64(0x210+int(t.Kind)), b ^ uint64(0x220+int(t.Kind))
+		case BNil:
+			p := uint64(0)
+			if t.Of != nil {
+				p = ptrHash(t.Of)
+			}
+			if t.IsNil {
+				p++
+			}
+			return p ^ 0x231, mix64(p)
+		}
+		return hashString("o" + t.Key)
+	case SliceV:
+		if t.IsNil {
+			return 0x301, 0x302
+		}
+		if t.Str != nil {
+			a, b := hashString(*t.Str)
+			return a ^ 0x311, b ^ 0x312
+		}
+		a1, b1 := t.Off.Hash()
+		a2, b2 := t.Len.Hash()
+		a3, b3 := t.Cap.Hash()
+		rid := uint64(0)
+		if t.Reg != nil {
+			rid = uint64(t.Reg.ID)
+		}
+		f := uint64(0)
+		if t.MaybeNil {
+			f = 0x5555
+		}
+		if t.NilOr {
+			f += 0x77777
+		}
+		return mix64(a1+rid*0x1f) + mix64(a2^0x77) + mix64(a3^0x99) + f, mix64(b1^rid) + mix64(b2+0x77) + mix64(b3+0x99) + f
+	case PtrV:
+		var a, b uint64 = 0x401, 0x402
+		if t.Cell != nil {
+			a += uint64(t.Cell.ID) * 0x9e3779b97f4a7c15
+			b += uint64(t.Cell.ID) * 0xc2b2ae3d27d4eb4f
+			for i, p := range t.Path {
+				a = mix64(a + uint64(p+1)*uint64(i+3))
+				b = mix64(b ^ uint64(p+7)*uint64(i+5))
+			}
+		}
+		if t.Reg != nil {
+			oa, ob := t.Off.Hash()
+			a += mix64(uint64(t.Reg.ID)*0x1b3 + oa)
+			b += mix64(uint64(t.Reg.ID)*0x193 ^ ob)
+			a += uint64(t.ArrLen) * 31
+		}
+		a += uint64(t.Nil) * 0x1001
+		b += uint64(t.Nil) * 0x2003
+		return a, b
+	case StructV:
+		var a, b uint64 = 0x501, 0x502
+		for i, f := range t.F {
+			fa, fb := hashValue(f)
+			a = mix64(a + fa*uint64(2*i+3))
+			b = mix64(b ^ (fb + uint64(i)*0x9e37))
+		}
+		return a, b
+	case TupleV:
+		a, b := hashValue(StructV{t.F})
+		return a ^ 0x61, b ^ 0x62
+	case ArrayV:
+		oa, ob := t.Off.Hash()
+		return mix64(uint64(t.Reg.ID)*0x71+oa) ^ uint64(t.N), mix64(uint64(t.Reg.ID)*0x73^ob) + uint64(t.N)
+	case IfaceV:
+		a, b := hashValue(t.Dyn)
+		if t.DT != nil {
+			sa, sb := hashString(t.DT.String())
+			a, b = a^sa, b+sb
+		}
+		return a + uint64(t.Nil)*0x801, b + uint64(t.Nil)*0x803
+	case FuncV:
+		a, b := hashString(t.Fn.String())
+		for i, bd := range t.Bind {
+			fa, fb := hashValue(bd)
+			a = mix64(a + fa*uint64(i+3))
+			b = mix64(b ^ fb)
+		}
+		return a, b
+	case Top:
+		return 0x901, 0x902
+	}
+	return hashString(v.vstr())
 }
 
 func valStr(v Value) string {
@@ -179,7 +387,103 @@ func valStr(v Value) string {
 
 // valuesEqual: structural equality of abstract values.
 func valuesEqual(a, b Value) bool {
-	return valStr(a) == valStr(b) && fmt.Sprintf("%T", a) == fmt.Sprintf("%T", b)
+	if a == nil || b == nil {
+		return a == nil && b == nil
+	}
+	switch x := a.(type) {
+	case IntV:
+		y, ok := b.(IntV)
+		return ok && x.L.Equal(y.L)
+	case BoolV:
+		y, ok := b.(BoolV)
+		if !ok || x.Kind != y.Kind {
+			return false
+		}
+		switch x.Kind {
+		case BConst:
+			return x.Const == y.Const
+		case BGe, BEq, BNe:
+			return x.L.Equal(y.L)
+		case BNil:
+			return x.Of == y.Of && x.IsNil == y.IsNil
+		}
+		return x.Key == y.Key
+	case SliceV:
+		y, ok := b.(SliceV)
+		if !ok || x.IsNil != y.IsNil || x.IsString != y.IsString || x.MaybeNil != y.MaybeNil || x.NilOr != y.NilOr {
+			return false
+		}
+		if x.IsNil {
+			return true
+		}
+		if (x.Str == nil) != (y.Str == nil) || (x.Str != nil && *x.Str != *y.Str) {
+			return false
+		}
+		return x.Reg == y.Reg && x.Off.Equal(y.Off) && x.Len.Equal(y.Len) && x.Cap.Equal(y.Cap)
+	case PtrV:
+		y, ok := b.(PtrV)
+		if !ok || x.Cell != y.Cell || x.Reg != y.Reg || x.Nil != y.Nil || x.ArrLen != y.ArrLen || len(x.Path) != len(y.Path) {
+			return false
+		}
+		for i := range x.Path {
+			if x.Path[i] != y.Path[i] {
+				return false
+			}
+		}
+		return x.Reg == nil || x.Off.Equal(y.Off)
+	case StructV:
+		y, ok := b.(StructV)
+		if !ok || len(x.F) != len(y.F) {
+			return false
+		}
+		for i := range x.F {
+			if !valuesEqual(x.F[i], y.F[i]) {
+				return false
+			}
+		}
+		return true
+	case TupleV:
+		y, ok := b.(TupleV)
+		if !ok || len(x.F) != len(y.F) {
+			return false
+		}
+		for i := range x.F {
+			if !valuesEqual(x.F[i], y.F[i]) {
+				return false
+			}
+		}
+		return true
+	case ArrayV:
+		y, ok := b.(ArrayV)
+		return ok && x.Reg == y.Reg && x.N == y.N && x.Off.Equal(y.Off)
+	case IfaceV:
+		y, ok := b.(IfaceV)
+		if !ok || x.Nil != y.Nil {
+			return false
+		}
+		if (x.DT == nil) != (y.DT == nil) {
+			return false
+		}
+		if x.DT != nil && x.DT.String() != y.DT.String() {
+			return false
+		}
+		return valuesEqual(x.Dyn, y.Dyn)
+	case FuncV:
+		y, ok := b.(FuncV)
+		if !ok || x.Fn != y.Fn || len(x.Bind) != len(y.Bind) {
+			return false
+		}
+		for i := range x.Bind {
+			if !valuesEqual(x.Bind[i], y.Bind[i]) {
+				return false
+			}
+		}
+		return true
+	case Top:
+		_, ok := b.(Top)
+		return ok
+	}
+	return valStr(a) == valStr(b)
 }
 
 // zeroValue builds the zero value of type t.
@@ -305,6 +609,14 @@ func (in *Interp) elemAtom(h *Heap, r *Region, off Lin, lo, hi int64) *Atom {
 	return a
 }
 
+// elemLin returns the value of the element at off: a known written value or the content atom.
+func (in *Interp) elemLin(h *Heap, r *Region, off Lin, lo, hi int64) Lin {
+	if v, ok := h.getKnown(r, off); ok {
+		return v
+	}
+	return AtomLin(in.elemAtom(h, r, off, lo, hi))
+}
+
 // get/set within a cell value following a field path.
 func getPath(v Value, path []int) Value {
 	for _, i := range path {
@@ -340,4 +652,12 @@ func setPath(v Value, path []int, nv Value, mk func(depth int) Value) Value {
 		ns.F[path[0]] = setPath(ns.F[path[0]], path[1:], nv, sub)
 	}
 	return ns
+}
+
+func reflectPtr(v ssa.Value) uintptr {
+	rv := reflect.ValueOf(v)
+	if rv.Kind() == reflect.Ptr {
+		return rv.Pointer()
+	}
+	return 0
 }
